@@ -131,3 +131,10 @@ def ccallee(x, y=1):
 @m.memento_function(version="b1")
 def pair(prefix, k):
     return _produce("pair", "%s|%s" % (prefix, k))
+
+
+# ---- nested call for concurrency scenarios (C09) -------------------------------------------
+@m.memento_function(version="n1")
+def nest(case_id):
+    REC.hit("nest", case_id)
+    return [produce(case_id), 1]
